@@ -9,7 +9,7 @@ from . import core
 
 WORD = re.compile(rb"[A-Za-z0-9_\x80-\xff]")
 SAFE = set(b";,()[]{}")
-SYMBOLIC = {"VAR", "IDENT", "LNUM", "DNUM", "SQSTR", "DQSTR", "MAGIC", "EXIT", "STRPART", "HTML", "NUMSTR"}
+SYMBOLIC = {"VAR", "IDENT", "LNUM", "DNUM", "SQSTR", "DQSTR", "MAGIC", "EXIT", "STRPART", "HTML", "NUMSTR", "HEREDOC_START", "HEREDOC_START_DQ", "NOWDOC_START", "HEREDOC_END", "HDTEXT", "HDTEXT_INDENT"}
 CASTS = {"array": ["(array)", "( array )", "(ARRAY)"], "bool": ["(bool)", "(boolean)", "(Bool)"], "double": ["(double)", "(float)", "(real)", "( FLOAT )"],
          "int": ["(int)", "(integer)", "(\tint )"], "object": ["(object)", "(OBJECT)"], "string": ["(string)", "(binary)", "(String)"], "unset": ["(unset)"]}
 MAGICS = ["__LINE__", "__FILE__", "__DIR__", "__CLASS__", "__FUNCTION__", "__METHOD__", "__NAMESPACE__", "__TRAIT__", "__line__"]
@@ -21,6 +21,7 @@ def schema():
     global _schema
     if _schema is None:
         _schema = json.load(open(os.path.join(core.SPEC, "nodeschema.json")))
+        _schema["SEQ"] = [["A", "node"], ["B", "node"]]
     return _schema
 
 
@@ -33,6 +34,10 @@ class Tok:
         self.ff = []
 
 
+class Skip(Exception):
+    """the derivation runs into a scanner-level fusion that the table cannot express (it is dropped, not judged)"""
+
+
 class Program:
     def __init__(self, table, beh, rng, keyword_case=True):
         self.variants = table["variants"]
@@ -41,12 +46,17 @@ class Program:
         self.rng = rng
         self.kwcase = keyword_case
         self.toks = []
+        self.labels = []
         self.counter = 0
         self.used = []           # variant ids used
         ch = iter(beh["choices"])
         first = next(ch)
         self.root = self._build("Root", self.rootfill, iter(first[1]), ch)
         self.eof = Tok("EOF", b"", "", len(self.toks))
+        # the scanner reads  ';' white-space* '?>'  as ONE token: a close tag right after a ';' cannot be a statement of its own
+        for i, t in enumerate(self.toks):
+            if t.lex == "?>" and i > 0 and self.toks[i - 1].text == b";":
+                raise Skip()
 
     # ---- spelling
     def _spell(self, lex):
@@ -75,6 +85,17 @@ class Program:
             return "<b>h%d</b>\n" % k
         if lex == "NUMSTR":
             return str(k)
+        if lex in ("HEREDOC_START", "HEREDOC_START_DQ", "NOWDOC_START"):
+            lbl = r.choice(["EOT", "A", "Lbl_"]) + str(k)
+            self.labels.append(lbl)
+            q = {"HEREDOC_START": "", "HEREDOC_START_DQ": '"', "NOWDOC_START": "'"}[lex]
+            return r.choice(["<<<", "<<< ", "b<<<"] if lex != "HEREDOC_START_DQ" else ["<<<"]) + q + lbl + q + r.choice(["\n", "\r\n"])
+        if lex == "HEREDOC_END":
+            return self.labels.pop()
+        if lex == "HDTEXT":
+            return r.choice([" text %d\n", " a {b} $ %d\r\n", "\n l%d\n"]) % k
+        if lex == "HDTEXT_INDENT":
+            return "    indented %d\n    " % k
         if lex.startswith("CAST:"):
             return r.choice(CASTS[lex[5:]])
         if self.kwcase and lex[:1].isalpha() and r.random() < 0.15:
@@ -110,18 +131,27 @@ class Program:
             elif f == "ch":
                 node["f"][slot] = ("node", self._choice(next(ch), ch))
             elif f == "sq":
-                items = []
-                for it in x["items"]:
+                items, seps = [], []
+                for k, it in enumerate(x["items"]):
                     if it["f"] == "nd":
                         items.append(self._build(it["kind"], it["fill"], lens, ch))
                     else:
                         items.append(self._choice(next(ch), ch))
+                    if x.get("seps") and k < len(x["items"]) - 1:
+                        seps.append(self._tok({"lex": x["sep"], "glue": ""}))
                 node["f"][slot] = ("list", items)
+                if x.get("seps"):
+                    node["f"][x["seps"]] = ("toklist", seps)
             elif f == "ls":
                 n, trail = next(lens)
                 items, seps = [], []
                 for i in range(n):
-                    items.append(self._choice(next(ch), ch))
+                    it = self._choice(next(ch), ch)
+                    if it["k"] == "SEQ":
+                        items.append(it["f"]["A"][1])
+                        items.append(it["f"]["B"][1])
+                    else:
+                        items.append(it)
                     if x["seps"] and (i < n - 1 or trail):
                         seps.append(self._tok({"lex": x["sep"], "glue": "LR" if x["sep"] == "\\" else ""}))
                 node["f"][slot] = ("list", items)
@@ -139,7 +169,9 @@ class Program:
             if prev is None:
                 out.append("first")
             elif nxt is None:
-                out.append("last")
+                out.append("none" if prev.lex == "HTML" else "last")
+            elif prev.lex == "HTML":
+                out.append("open")                     # back to PHP: an open tag comes first
             elif "R" in prev.glue or "L" in nxt.glue:
                 out.append("none")
             elif fuses(prev.text, nxt.text):
@@ -158,7 +190,12 @@ class Program:
             if gk[i] == "first":
                 pieces.append(("T_OPEN_TAG", b"<?php"))
                 pieces.append(("T_WHITESPACE", b" "))
-            pieces += recipes(i, gk[i]) if gk[i] != "none" else []
+            if gk[i] == "open":
+                pieces.append(("T_OPEN_TAG", b"<?php"))
+                pieces.append(("T_WHITESPACE", b"\n"))
+            if i > 0 and "N" in self.toks[i - 1].glue and gk[i] != "none":
+                pieces.append(("T_WHITESPACE", b"\n"))
+            pieces += recipes(i, "free" if gk[i] == "open" else gk[i]) if gk[i] != "none" else []
             if gk[i] == "sep" and not pieces:
                 pieces = [("T_WHITESPACE", b" ")]
             # a comment directly after a "/" would fuse with it ("/" + "/* c */" is a line comment)
